@@ -8,7 +8,7 @@ A *group* is one alphabet of Cobweb.tla with
 
 def C(**kw):
     base = dict(NSys=2, NOnce=0, NW=0, NER=0, NEnt=1, Hier=0, NTy=1, NVal=1, OpNames=set(), Modes=set(), MaxOps=2, Budget=3, MaxSteps=2,
-                StepKinds={"ops"}, Features=set(), Excl=set(), Defects=set(), Mutants=set(), Scripted=False, FinalStep="")
+                StepKinds={"ops"}, Features=set(), Excl=set(), RcSys=set(), Defects=set(), Mutants=set(), Scripted=False, FinalStep="")
     base.update(kw)
     if "BodyOps" not in kw:
         base["BodyOps"] = base["MaxOps"]
@@ -21,10 +21,10 @@ GROUPS = {
     "run": dict(
         subst=dict(Bundles="B_One", InitOps="NoOps"),
         mc_quick=C(NSys=2, OpNames={"run", "sysev"}, MaxOps=3, Budget=4, MaxSteps=2, Features={"notake"}),
-        mc_thorough=C(NSys=3, OpNames={"run", "sysev", "despsys"}, MaxOps=3, Budget=6, MaxSteps=2, Features={"err", "notake"}),
-        gen=C(NSys=3, Excl={3}, OpNames={"run", "sysev", "xsysev", "despsys", "probe"}, MaxOps=3, Budget=9, MaxSteps=3, Features={"err", "notake", "take2"},
+        mc_thorough=C(NSys=3, RcSys={2}, OpNames={"run", "sysev", "despsys", "rcdrop"}, MaxOps=3, Budget=6, MaxSteps=2, Features={"err", "notake"}),
+        gen=C(NSys=3, Excl={3}, RcSys={2}, OpNames={"run", "sysev", "xsysev", "despsys", "rcdrop", "probe"}, MaxOps=3, Budget=9, MaxSteps=3, Features={"err", "notake", "take2"},
               StepKinds={"ops", "direct"}),
-        rnd=dict(cfg=dict(kinds=["plain", "plain", "excl"], nonce=0, nent=1), alphabet=["run", "sysev", "xsysev", "despsys", "probe"], p_direct=15,
+        rnd=dict(cfg=dict(kinds=["plain", "plain", "excl"], nonce=0, nent=1, rcsys=[2]), alphabet=["run", "sysev", "xsysev", "despsys", "rcdrop", "probe"], p_direct=15,
                  trigs=["bc"], max_ops=4, budget=12, steps=3, ntypes=1, p_gcpoll=10, init=[]),
     ),
     # events with listeners of all event kinds: C01 C03 C04 C05 C12
